@@ -444,6 +444,12 @@ func (p *Prog) astGlobalInit(pkg, name string) (ast.Expr, *types.Info) {
 func stringElems(e ast.Expr, info *types.Info, keys bool) ([]string, bool) {
 	cl, ok := e.(*ast.CompositeLit)
 	if !ok {
+		// a table built by a function of the package whose body is `return <literal>`
+		if call, isCall := e.(*ast.CallExpr); isCall && curProg != nil {
+			if lit := returnedLiteral(curProg, info, call); lit != nil {
+				return stringElems(lit, info, keys)
+			}
+		}
 		return nil, false
 	}
 	var out []string
@@ -555,4 +561,33 @@ func c13LookupKeys(p *Prog, r *Report) {
 		})
 	}
 	r.check(len(bad) == 0 && n >= 2, rule, "compression table lookups", "", fmt.Sprintf("%d lookups", n), strings.Join(dedupe(bad), " || "))
+}
+
+// returnedLiteral: call is a call of a function of the repository whose body consists of one
+// return statement with a composite literal: that literal.
+func returnedLiteral(p *Prog, info *types.Info, call *ast.CallExpr) *ast.CompositeLit {
+	id, ok := call.Fun.(*ast.Ident)
+	if !ok {
+		return nil
+	}
+	fobj, ok := info.Uses[id].(*types.Func)
+	if !ok || fobj.Pkg() == nil || !strings.HasPrefix(fobj.Pkg().Path(), modPath) {
+		return nil
+	}
+	rel := strings.TrimPrefix(strings.TrimPrefix(fobj.Pkg().Path(), modPath), "/")
+	for _, f := range p.Syntax(rel) {
+		for _, d := range f.Decls {
+			fd, ok := d.(*ast.FuncDecl)
+			if !ok || fd.Recv != nil || fd.Name.Name != fobj.Name() || fd.Body == nil || len(fd.Body.List) != 1 {
+				continue
+			}
+			ret, ok := fd.Body.List[0].(*ast.ReturnStmt)
+			if !ok || len(ret.Results) != 1 {
+				continue
+			}
+			lit, _ := ret.Results[0].(*ast.CompositeLit)
+			return lit
+		}
+	}
+	return nil
 }
